@@ -236,8 +236,7 @@ class ExecNode:
         # 1. prepare args and kwargs for usage:
         args = [uxn.result(results) for uxn in self.args]
         kwargs = {
-            # kwarg might be executed in a dag in dag "which will contain "."
-            key.split(".")[-1]: uxn.result(results)
+            key: uxn.result(results)
             for key, uxn in self.kwargs.items()
             if key not in RESERVED_KWARGS
         }
